@@ -72,9 +72,10 @@ Iters == IF Tier = "quick" THEN 150 ELSE 2000
 Kid(i) == CASE i = 1 -> "k1" [] i = 2 -> "k2" [] i = 3 -> "k3" [] i = 4 -> "k4" [] i = 5 -> "k5" [] i = 6 -> "k6" [] i = 7 -> "k7"
             [] i = 8 -> "k8" [] i = 9 -> "k9" [] i = 10 -> "k10" [] i = 11 -> "k11" [] OTHER -> "k12"
 KeysWithKid == [i \in 1..Len(AllKeys) |-> [AllKeys[i] EXCEPT !.kid = Kid(i)]]
-\* bykid = 1: every thread looks its keys up by kid in the shared keyring from its callbacks, at every call
+\* bykid = 1: every thread looks its keys up by kid in the shared keyring from its callbacks, at every call;
+\* bykid = 2: it walks the shared keyring by index (jwks_item_count / jwks_item_get) and picks the key by kid
 Script(p, rep) == << OpsOp(p), LoadOp(KeysWithKid),
-                     [op |-> "Threads", ring |-> 0, iters |-> Iters, skew |-> 1, rep |-> rep, bykid |-> rep % 2, specs |-> Specs(p)] >>
+                     [op |-> "Threads", ring |-> 0, iters |-> Iters, skew |-> 1, rep |-> rep, bykid |-> rep % 3, specs |-> Specs(p)] >>
 Emit == (\A t \in T : tpc[t] = 0) =>
-          \A p \in Providers : \A rep \in 1..(IF Tier = "quick" THEN 4 ELSE 30) : PrintT(<<"SCRIPT", ToJson(Script(p, rep))>>)
+          \A p \in Providers : \A rep \in 1..(IF Tier = "quick" THEN 6 ELSE 30) : PrintT(<<"SCRIPT", ToJson(Script(p, rep))>>)
 =============================================================================
